@@ -7,7 +7,7 @@
    third-party decoder returned for it), so the comparison covers openGemini's own framing and the raw layout fed to
    the compressor. *)
 From Coq Require Import ZArith List Bool.
-From OG Require Import C07.Gen_Consts C07.Model C07.ModelRows C07.ModelFile C07.ModelPreAgg.
+From OG Require Import C07.Gen_Consts C07.Model C07.ModelRows C07.ModelFile C07.ModelPreAgg C07.ModelCMSelf.
 Import ListNotations.
 Open Scope Z_scope.
 
@@ -207,3 +207,11 @@ Fixpoint blocks_ok (chunks : list rng) (blocks : list (Z * rng)) : bool :=
 Definition check_ranges (chunks : list rng) (trailer : rng) (blocks : list (Z * rng)) : Z :=
   (let '(n, r) := tr_fold chunks in if (n =? len chunks) && rng_eqb r trailer then 0 else 2) +
   (if blocks_ok chunks blocks then 0 else 4).
+
+(* chunk meta in the mode-self layout: 1 not well-formed for the scale index / dictionary indices read from the real
+   bytes (a scale that does not divide a delta, a column whose index does not name it, segments not contiguous ...);
+   2 e_cm_self differs from the real bytes; 4 the model reader with the dictionary does not return it from the real bytes *)
+Definition check_cm_self (dict : list (list Z)) (k : Z) (idxs : list Z) (m : chunk_meta) (real : list Z) : Z :=
+  (if cm_self_ok dict k idxs m && (0 <=? k) && (k <? n_scales) then 0 else 1) +
+  (if list_eqb (e_cm_self k idxs m) real then 0 else 2) +
+  (match d_cm_self dict real with Some (m', []) => if list_eqb (e_cm_self k idxs m') real then 0 else 4 | _ => 4 end).
